@@ -94,8 +94,11 @@ def flat_line(tier, carrier='list_none', tcarrier='dt64'):
 
 def attenuated(tier, carrier='list_none', tcarrier='dt64'):
     for ct in ('std', 'range'):
-        for s, f in ((2, 1), (1, 1), (1, 2)):
+        # the last pair: small-magnitude data (a signal in units where it is of order 1e-9) - thresholds are not absolute sizes
+        for s, f in ((2, 1), (1, 1), (1, 2), (Fr(1, 10 ** 9), Fr(1, 10 ** 10))):
             for n in lengths(tier, [1, 2, 3, 4], [1, 2, 3, 4, 5, 6]):
+                if isinstance(s, Fr) and n > 3:
+                    continue
                 for pat in pats_for(n, tier, cap=8):
                     t = regular(n)
                     variants = [dict()]
